@@ -77,6 +77,8 @@ template <typename T>
 class DynamicNDArray {
  public:
   using value_type = T;
+  // like a default-constructed xt::xarray: rank 0, i.e. one (value-initialised) element
+  DynamicNDArray() { data_.resize(1); }
   auto begin() { return data_.begin(); }
   auto end() { return data_.end(); }
   auto begin() const { return data_.begin(); }
